@@ -973,3 +973,18 @@ def origin(fn, e, pos=None, depth=4):
             break
         t = nt
     return t
+
+
+def reaches(fn, a, b):
+    """Is block b reachable from block a (normal edges, a != b or through a cycle)?"""
+    seen = set()
+    work = [t for _, t in fn.succs(a)]
+    while work:
+        x = work.pop()
+        if x == b:
+            return True
+        if x in seen:
+            continue
+        seen.add(x)
+        work += [t for _, t in fn.succs(x)]
+    return False
